@@ -605,6 +605,26 @@ func (fi *FuncInfo) errorHandled(call *ast.CallExpr, errIdx, nres int) (bool, st
 	}
 	switch p := par.(type) {
 	case *ast.ExprStmt:
+		// releasing a handle on a path that already reports an earlier error: `f.Close(); return err`
+		if n := fi.calleeName(call); n == "os.File.Close" {
+			if blk, ok := fi.parent[p].(*ast.BlockStmt); ok {
+				for i, st := range blk.List {
+					if st != ast.Stmt(p) || i+1 >= len(blk.List) {
+						continue
+					}
+					if ret, ok := blk.List[i+1].(*ast.ReturnStmt); ok && len(ret.Results) > 0 {
+						last := ret.Results[len(ret.Results)-1]
+						if v := fi.varOf(last); v != nil && isErrorType(v.Type()) && !fi.isNilIdent(last) {
+							for _, g := range fi.Guards(p) {
+								if be, ok := ast.Unparen(g.Expr).(*ast.BinaryExpr); ok && !g.Neg && be.Op == token.NEQ && fi.varOf(be.X) == v && fi.isNilIdent(be.Y) {
+									return true, "closed on a path that returns the earlier error"
+								}
+							}
+						}
+					}
+				}
+			}
+		}
 		return false, "call used as a statement"
 	case *ast.ReturnStmt:
 		return true, "returned to the caller"
